@@ -61,6 +61,7 @@ type M struct {
 	cookieOwner map[string]string
 	revoked     map[string]bool
 	staleSecret map[string]bool
+	spent       map[string]bool // stored credential hashes that have been removed from storage
 	lastAct  map[string]time.Time
 	lastActU map[string]string
 	Last    *world.Result
@@ -139,7 +140,7 @@ func New(cfg world.Cfg, out *wire.Out) (*M, error) {
 	}
 	m := &M{W: w, Cfg: cfg, Out: out, sha: map[string]string{}, bc: map[string]string{}, Secrets: map[string]string{},
 		used: map[string]int{}, issuedN: map[string]int{}, smsIssue: map[string]int{},
-		smsOrigin: map[string]string{}, cookieOwner: map[string]string{}, revoked: map[string]bool{}, staleSecret: map[string]bool{}}
+		smsOrigin: map[string]string{}, cookieOwner: map[string]string{}, revoked: map[string]bool{}, staleSecret: map[string]bool{}, spent: map[string]bool{}}
 	out.Add(CfgLine(cfg), "cfg-ok")
 	return m, nil
 }
@@ -753,6 +754,42 @@ func (m *M) HTTP(b, route string, a Args, fault *world.Fault) *world.Result {
 	if fresh == "" && len(r.NewSMS) > 0 {
 		fresh = r.NewSMS[len(r.NewSMS)-1].Code
 	}
+	// values the server drew and stored but which never left it (the render / send failed):
+	// the harness leaf saw them in the call that failed
+	if r.Injected {
+		for _, d := range r.Seen {
+			for _, key := range []string{"url", "recover_url"} {
+				us, ok := d[key].(string)
+				if !ok || fresh != "" {
+					continue
+				}
+				if u, err := url.Parse(us); err == nil {
+					tok := u.Query().Get("cnf")
+					if tok == "" {
+						tok = u.Query().Get("token")
+					}
+					if strings.Contains(u.Path, "/email/verify/end") {
+						fresh = tok
+					} else if raw, err := base64.URLEncoding.DecodeString(tok); err == nil && len(raw) == 64 {
+						fresh = string(raw)
+						m.learn(string(raw[:32]), "")
+						m.learn(string(raw[32:]), "")
+					}
+				}
+			}
+			if o, ok := d["otp"].(string); ok && fresh == "" {
+				fresh = o
+				m.learn(o, "")
+			}
+			if rc, ok := d["recovery_codes"].([]string); ok && len(fresh2) == 0 {
+				fresh2 = rc
+				m.recSets = append(m.recSets, rc)
+			}
+		}
+		if fresh == "" && len(r.SeenSMS) > 0 {
+			fresh = r.SeenSMS[len(r.SeenSMS)-1]
+		}
+	}
 
 	// ---- op line ------------------------------------------------------------------
 	kv := []string{}
@@ -869,9 +906,12 @@ func (m *M) HTTP(b, route string, a Args, fault *world.Fault) *world.Result {
 		m.Out.Logs = append(m.Out.Logs, fmt.Sprintf("%d\tPANIC %s", len(m.Out.Ops), r.Panic))
 	}
 	m.Out.Add(op, obs)
-	if fault == nil {
+	if fault == nil || !r.Injected {
 		m.check(b, route, a, pre, r)
+	} else {
+		m.checkFault(b, route, a, pre, r, fault)
 	}
+	m.trackSpent(pre, r.Injected, route, b)
 	m.Out.Count("route:" + strings.SplitN(rt, ":", 2)[0])
 	m.Out.Count("resp:" + strings.SplitN(resp, ":", 3)[0] + ":" + func() string {
 		p := strings.SplitN(resp, ":", 3)
@@ -1000,3 +1040,6 @@ func (m *M) SetSession(b string, sess map[string]string) {
 	}
 	m.Out.Add(strings.TrimRight("m setsess "+b+" "+strings.Join(kv, " "), " "), "ok "+m.StoreLine())
 }
+
+// ShaB64 is base64(sha512(x)), the form one-time passwords and tokens are stored in.
+func ShaB64(x string) string { return shaB64(x) }
